@@ -25,6 +25,7 @@ type FnCase struct {
 	ErrRes  bool   `json:"err_result,omitempty"` // exec returns (NewErrorResult(err), nil) — Result style only
 	Retries int    `json:"retries,omitempty"`    // > 0: WithMaxRetries(Retries) is configured (exec never returns a Go error here, so it must run once)
 	FB      bool   `json:"fb,omitempty"`         // a fallback function is installed (must not be invoked)
+	Conc    int    `json:"conc,omitempty"`       // a batch concurrency (and error mode) configured on the plain function node: must change nothing
 }
 
 var errFn = errors.New("exec-produced error state")
@@ -247,6 +248,9 @@ func runFnCase(cs *FnCase) (fs []finding) {
 		if cs.FB {
 			opts = append(opts, flyt.WithExecFallbackFunc(fbFn))
 		}
+		if cs.Conc > 0 {
+			opts = append(opts, flyt.WithBatchConcurrency(cs.Conc), flyt.WithBatchErrorHandling(false))
+		}
 		node = flyt.NewNode(opts...)
 	case "builder":
 		node = flyt.NewNode()
@@ -255,6 +259,9 @@ func runFnCase(cs *FnCase) (fs []finding) {
 		}
 		if cs.FB {
 			node = node.WithExecFallbackFunc(fbFn)
+		}
+		if cs.Conc > 0 {
+			node = node.WithBatchConcurrency(cs.Conc).WithBatchErrorHandling(true)
 		}
 		if cs.PrepR {
 			node = node.WithPrepFunc(prepRes)
@@ -284,6 +291,9 @@ func runFnCase(cs *FnCase) (fs []finding) {
 		node = flyt.NewNode(opts...)
 		if cs.Retries > 0 {
 			node = node.WithMaxRetries(cs.Retries)
+		}
+		if cs.Conc > 0 {
+			node = node.WithBatchConcurrency(cs.Conc)
 		}
 		if cs.PrepR {
 			node = node.WithPrepFunc(prepRes)
@@ -346,6 +356,9 @@ func runC17(c *Cfg) {
 					}
 					for p := 0; p < nz; p++ {
 						cases = append(cases, &FnCase{Family: "grid", PrepR: st&1 != 0, ExecR: st&2 != 0, PostR: st&4 != 0, Build: build, Context: ctx, P: p, E: (p*7 + 3) % nz, ErrRes: errRes})
+						if p%5 == 1 && ctx != "batch" { // a batch concurrency on a plain function node is inert
+							cases = append(cases, &FnCase{Family: "grid-conc", PrepR: st&1 != 0, ExecR: st&2 != 0, PostR: st&4 != 0, Build: build, Context: ctx, P: p, E: (p*7 + 3) % nz, ErrRes: errRes, Conc: 1 + p%3})
+						}
 						if p%6 == 0 { // retries configured and/or a fallback installed: exec still runs once, nothing is stripped
 							for v := 1; v < 4; v++ {
 								cases = append(cases, &FnCase{Family: "grid-retries", PrepR: st&1 != 0, ExecR: st&2 != 0, PostR: st&4 != 0, Build: build, Context: ctx, P: p, E: (p*7 + 3) % nz, ErrRes: errRes, Retries: 3 * (v & 1), FB: v&2 != 0})
@@ -367,7 +380,7 @@ func runC17(c *Cfg) {
 		for _, f := range fs {
 			r.Violate("C17", "C17:"+f.key, f.detail, cs)
 		}
-		r.Nontrivial(fmt.Sprintf("%v%v%v %s %s %d %v %d %v", cs.PrepR, cs.ExecR, cs.PostR, cs.Build, cs.Context, cs.P, cs.ErrRes, cs.Retries, cs.FB))
+		r.Nontrivial(fmt.Sprintf("%v%v%v %s %s %d %v %d %v", cs.PrepR, cs.ExecR, cs.PostR, cs.Build, cs.Context, cs.P, cs.ErrRes, cs.Retries, cs.FB) + fmt.Sprint(cs.Conc))
 		if cs.ErrRes && cs.P == 0 && r.SampleWanted("grid") {
 			r.Sample("grid", cs)
 		}
